@@ -58,9 +58,15 @@ def build_step(ctx, mode):
     m, g = pd["m"], pd["g"]
     trim = m * g
     l, CM, CT = pd["l_motor_0"], pd["CM"], pd["CT"]
-    k_p_att = ca.DM([5, 5, 2])
-    kp, ki, kd = ca.DM([0.3, 0.3, 0.05]), ca.DM([0, 0, 0]), ca.DM([0.1, 0.1, 0])
-    f_cut, i_max = 10.0, ca.DM([0, 0, 0])
+    # gains, limits and plant parameters are run-time *inputs* of the composed step, as in the simulator (which calls the
+    # functions with numeric arrays): written as constants they would be folded into the graph, and `0 * x` with a constant
+    # 0 disappears even when x is NaN (i_max = ki = 0 in the simulator's configuration)
+    gains_val = np.array([5, 5, 2, 0.3, 0.3, 0.05, 0, 0, 0, 0.1, 0.1, 0, 10.0, 0, 0, 0, trim, FMAX, l, CM, CT], dtype=float)
+    gains = ca.SX.sym("gains", len(gains_val))
+    k_p_att, kp, ki, kd, f_cut, i_max = gains[0:3], gains[3:6], gains[6:9], gains[9:12], gains[12], gains[13:16]
+    trim_s, fmax_s, l_s, cm_s, ct_s = gains[16], gains[17], gains[18], gains[19], gains[20]
+    psym = ca.SX.sym("p", len(p))
+    z3 = ca.SX.sym("zero_setpoints", 3)
     x = ca.SX.sym("x", 17)
     i0, e0, de0 = ca.SX.sym("i0", 3), ca.SX.sym("e0", 3), ca.SX.sym("de0", 3)
     z_i = ca.SX.sym("z_i")
@@ -72,18 +78,17 @@ def build_step(ctx, mode):
     pw, vb, q, om = x[IP], x[IV], x[IQ], x[IW]
     vw = eqs["rotate_vector_b_to_w"](q, vb)
     qc = ca.vertcat(ca.cos(psi_sp / 2), 0, 0, ca.sin(psi_sp / 2))  # commanded heading as a pure-yaw quaternion
-    z3 = ca.DM.zeros(3)
     if mode == "position_control":
-        thrust, q_sp, z_i2 = eqs["position_control"](trim, target, z3, z3, qc, pw, vw, z_i, DT)
+        thrust, q_sp, z_i2 = eqs["position_control"](trim_s, target, z3, z3, qc, pw, vw, z_i, DT)
         om_sp = eqs["attitude_control"](k_p_att, q, q_sp)
     else:
         zeta = eqs["se23_error"](pw, vw, q, target, z3, qc)
-        thrust, q_sp, z_i2 = eqs["se23_position_control"](trim, k_p_att, zeta, z3, qc, z_i, DT)
+        thrust, q_sp, z_i2 = eqs["se23_position_control"](trim_s, k_p_att, zeta, z3, qc, z_i, DT)
         om_sp = eqs["so3_attitude_control"](k_p_att, q, q_sp)
     M, i1, e1, de1, alpha = eqs["attitude_rate_control"](kp, ki, kd, f_cut, i_max, om, om_sp, i0, e0, de0, DT)
-    u, Fp, Fm, Ft, Ms = eqs["f_alloc"](FMAX, l, CM, CT, thrust, M)
+    u, Fp, Fm, Ft, Ms = eqs["f_alloc"](fmax_s, l_s, cm_s, ct_s, thrust, M)
     f = model["f"]
-    pp = ca.DM(p)
+    pp = psym
     h = DT / SUB
     xn = x
     zmin = x[IP[2]]
@@ -96,12 +101,12 @@ def build_step(ctx, mode):
         zmin = ca.fmin(zmin, xn[IP[2]])
     qn = xn[IQ]
     xn[IQ] = qn / ca.norm_2(qn)
-    ev = Ev("step_" + mode, [x, i0, e0, de0, z_i, target, psi_sp], [xn, i1, e1, de1, z_i2, Fp, u, thrust, q_sp, zmin], probe=False)
+    ev = Ev("step_" + mode, [x, i0, e0, de0, z_i, target, psi_sp, gains, psym, z3], [xn, i1, e1, de1, z_i2, Fp, u, thrust, q_sp, zmin], probe=False)
     hover = float(np.sqrt(m * g / 4 / CT))
-    return ev, dict(IP=IP, IV=IV, IQ=IQ, IW=IW, IM=IM, hover=hover)
+    return ev, dict(IP=IP, IV=IV, IQ=IQ, IW=IW, IM=IM, hover=hover, gains=gains_val, p=p)
 
 
-def initial_conditions(rng, H, idx, mode):
+def initial_conditions(rng, H, idx, mode, structured=True):
     X = np.zeros((H, 17))
     # hover set-point anywhere (the problem is translation invariant), commanded heading anywhere for the
     # position-controller cascade; the log-linear cascade keeps the simulator's default heading 0 (DESIGN 2.C17)
@@ -124,6 +129,23 @@ def initial_conditions(rng, H, idx, mode):
     X[:, idx["IV"]] = rng.normal(size=(H, 3))
     X[:, idx["IW"]] = rng.normal(size=(H, 3))
     X[:, idx["IM"]] = idx["hover"]
+    # structured starts (exact zeros matter: an expression that is 0/0 on an axis is invisible to generic starts): already in
+    # hover; a pure vertical / pure lateral offset at rest and level; a pure roll or pitch tilt released at rest
+    if H >= 6 and structured:
+        X[:6, idx["IV"]] = 0.0
+        X[:6, idx["IW"]] = 0.0
+        psi_sp[:6] = 0.0
+        psi0[:6] = 0.0
+        tilt[:6] = 0.0
+        ident = np.array([1.0, 0, 0, 0])
+        X[:6, idx["IQ"]] = ident
+        X[:6, idx["IP"]] = target[:6]
+        X[1, idx["IP"][2]] += 1.5
+        X[2, idx["IP"][0]] -= 1.25
+        X[3, idx["IQ"]] = O.axang_to_quat(np.array([[1.0, 0, 0]]), np.array([0.5]))[0]; tilt[3] = 0.5
+        X[4, idx["IQ"]] = O.axang_to_quat(np.array([[0, 1.0, 0]]), np.array([-0.75]))[0]; tilt[4] = 0.75
+        X[5, idx["IP"][1]] += 1.0
+        X[5, idx["IP"][2]] -= 1.0
     return X, target, tilt, psi0, psi_sp
 
 
@@ -135,10 +157,11 @@ def run(ctx):
             continue
         ev, idx = built
         rng = ctx.rng("c17:" + mode)
-        X, target, tilt, psi0, psi_sp = initial_conditions(rng, H, idx, mode)
+        X, target, tilt, psi0, psi_sp = initial_conditions(rng, H, idx, mode, structured=(ctx.shard % 4 == 0))
         X0 = X.copy()
         i0 = np.zeros((H, 3)); e0 = np.zeros((H, 3)); de0 = np.zeros((H, 3)); zi = np.zeros(H)
         n = int(round(TF / DT))
+        Gn, Pn, Z3n = np.tile(idx["gains"], (H, 1)), np.tile(idx["p"], (H, 1)), np.zeros((H, 3))
         alive = np.ones(H, bool)
         first_nonfinite = np.full(H, -1)
         fmin, fmax = np.full(H, np.inf), np.full(H, -np.inf)
@@ -148,7 +171,7 @@ def run(ctx):
         pe0 = np.linalg.norm(X[:, idx["IP"]] - target, axis=1); pemax = pe0.copy(); tilt_run = np.zeros(H)
         perr_t = {5: np.zeros(H), 10: np.zeros(H), 20: np.zeros(H)}
         for k in range(n):
-            (Xn, i1, e1, de1, zi2, Fp, u, thrust, qsp, zmin), _ = ev(X, i0, e0, de0, zi, target, psi_sp)
+            (Xn, i1, e1, de1, zi2, Fp, u, thrust, qsp, zmin), _ = ev(X, i0, e0, de0, zi, target, psi_sp, Gn, Pn, Z3n)
             Xn = Xn[:, :, 0]
             fin = np.isfinite(Xn).all(axis=1) & np.isfinite(Fp[:, :, 0]).all(axis=1) & np.isfinite(u[:, :, 0]).all(axis=1)
             newly = alive & ~fin
